@@ -1014,7 +1014,7 @@ impl<C: Suite> Sim<C> {
                 };
                 let res = match &mode {
                     SignMode::Plain => C::w_sign(&pkg, &nonces, &kp),
-                    SignMode::Rerand => frost_rerandomized::sign_with_randomizer_seed(&pkg, &nonces, &kp, &parts[1]),
+                    SignMode::Rerand => C::w_rr_sign(&pkg, &nonces, &kp, &parts[1]),
                     SignMode::Tweak(root) => crate::tr::sign_with_tweak::<C>(&pkg, &nonces, &kp, root.as_deref()),
                 };
                 match res {
@@ -1360,7 +1360,7 @@ impl<C: Suite> Sim<C> {
                     let (result, params) = match &mode {
                         SignMode::Plain => (C::w_aggregate(&pkg, &shares, &pk), None),
                         SignMode::Rerand => match RandomizedParams::<C>::regenerate_from_seed_and_commitments(pk.verifying_key(), &seed, pkg.signing_commitments()) {
-                            Ok(params) => (frost_rerandomized::aggregate(&pkg, &shares, &pk, &params), Some(params)),
+                            Ok(params) => (C::w_rr_aggregate(&pkg, &shares, &pk, &params), Some(params)),
                             Err(e) => (Err(e), None),
                         },
                         SignMode::Tweak(root) => (crate::tr::aggregate_with_tweak::<C>(&pkg, &shares, &pk, root.as_deref()), None),
